@@ -60,19 +60,29 @@ def check_pair(acc, sch, w, mod, tname, tags, va, vb, rng):
                'value': C.jsonable(va), 'b_before': C.jsonable(vb)}
         wit.update(kw)
         return wit
+    # Two ways to prepare the source: 'dense' assigns every field and observes the source before the copy; 'sparse'
+    # performs the fewest operations (arms selected through the discriminator only, defaults never touched) and the
+    # source is NOT read before copy_from, so nothing is materialised by a getter. Expected value: the reference's.
+    sparse = rng.random() < 0.5
     try:
         a, b = cls(), cls()
-        pyrt.build(a, sch, tname, va)
+        pyrt.build(a, sch, tname, va, sparse)
         pyrt.build(b, sch, tname, vb)
-        oa = observe(a, sch, tname)
+        if sparse:
+            ref = cls()
+            pyrt.build(ref, sch, tname, va)
+            oa = observe(ref, sch, tname)
+        else:
+            oa = observe(a, sch, tname)
     except Exception:  # noqa - C01/C10's business
         acc.count('setup_raised_not_judged_here')
         return
+    acc.count('sparse_unobserved_sources' if sparse else 'dense_observed_sources')
     try:
         b.copy_from(a)
     except Exception as e:  # noqa
         acc.violation(PROP, 'copy_from-raises:%s:%s' % (type(e).__name__, _where(sch, tname, va)),
-                      witness(error='%s: %s' % (type(e).__name__, e)))
+                      witness(error='%s: %s' % (type(e).__name__, e), sparse_source=sparse))
         return
     acc.count('copies')
     try:
@@ -87,7 +97,7 @@ def check_pair(acc, sch, w, mod, tname, tags, va, vb, rng):
         return
     if ob != oa:
         acc.violation(PROP, 'copy-differs-from-source:' + _diff_kind(sch, tname, oa[0], ob[0]),
-                      witness(copy=C.jsonable(ob[0])))
+                      witness(copy=C.jsonable(ob[0]), sparse_source=sparse))
         return
     # independence, both directions
     for who, x, other in (('source', a, b), ('copy', b, a)):
